@@ -2,7 +2,7 @@
    the construction of its boot state (Upper.v `llfree_new`), the policies (Policies.v) and the
    specifications the oracles evaluate on the implementation's own dumps (Spec.v `lower_invb`,
    UpperInvDef.v `upper_invb`, Crash.v / UpperCrash.v `touched_b`, `in_hand`).  ExtrOcamlBasic only; N, positive, nat stay Coq's inductives. *)
-From LLF Require Import Base Row Bitfield Lower Spec Sorted Upper UpperInvDef Policies LowerMachine UpperMachine
+From LLF Require Import AccessBoundsDef Base Row Bitfield Lower Spec Sorted Upper UpperInvDef Policies LowerMachine UpperMachine
   ConcInvDef Crash UpperConcInvDef UpperCrash.
 Require Import ExtrOcamlBasic.
 Extraction Language OCaml.
@@ -14,4 +14,6 @@ Extraction "model.ml"
   (* crash points (C05 on M2, UpperCrash.v): the M1 view of an M2 state, blocks in the hands of in-flight gets,
      frames touched by in-flight lower calls; recovery and the ownership specification *)
   m1_of in_hand touched_b covered_b lower_recover abs spec_put_enabled exact_free free_huge_count
+  (* C18: the index / lane predicate evaluated on the accesses of the compiled code *)
+  row_idx_okb ent_idx_okb tree_idx_okb slot_idx_okb
   popcount.
